@@ -44,7 +44,7 @@ inductive Op
   | expire
   | waiting (r : SignedHash)
   | history (r : SignedHash)
-  | balance (r : SignedHash)
+  | balance (r : SignedHash) (ledgerOk : Bool)   -- ledgerOk: CalculateBalance succeeded (or the balance was cached)
   | saved (r : SignedHash)
   | ledgerDrop (hs : List Bytes)   -- the ledger discarded unconfirmed tips that failed validation (C01)
 deriving Repr
@@ -184,11 +184,12 @@ def history (c : Cfg) (s : St) (r : SignedHash) : St × Resp × Out :=
   else if !verifySH c r then (s', .errVerification, [])
   else (s', .ok, s.sealed.filter (involves r.address))
 
-def balance (c : Cfg) (s : St) (r : SignedHash) : St × Resp :=
+def balance (c : Cfg) (s : St) (r : SignedHash) (ledgerOk : Bool) : St × Resp :=
   let (s', thr) := throttle s r.address
   if thr then (s', .errThrottle)
   else if r.data != r.address then (s', .errVerification)
   else if !verifySH c r then (s', .errVerification)
+  else if !ledgerOk then (s', .errProcessing)   -- the ledger could not compute a balance (C06)
   else (s', .ok)
 
 def saved (c : Cfg) (s : St) (r : SignedHash) : Resp × Out :=
@@ -210,7 +211,7 @@ def step (c : Cfg) (s : St) : Op → St × Resp × Out
   | .expire => (expireAll s, .ok, [])
   | .waiting r => waiting c s r
   | .history r => history c s r
-  | .balance r => let (s', x) := balance c s r; (s', x, [])
+  | .balance r lo => let (s', x) := balance c s r lo; (s', x, [])
   | .saved r => let (x, o) := saved c s r; (s, x, o)
   | .ledgerDrop hs => ({ s with sealed := s.sealed.filter fun t => !hs.contains t.hash }, .ok, [])
 
